@@ -693,9 +693,9 @@ CONTENTS_MORE = [
 
 
 def alphabet(tier, bar):
-    pos = (-9, -2, -1, 0, 1, 3, 9) if tier == "quick" else tuple(range(-9, 10))
+    pos = (-9, -2, -1, 0, 3, 9) if tier == "quick" else tuple(range(-9, 10))
     evs = [("key", k) for k in KEYS]
-    evs += [("wheel", 4), ("wheel", 5), ("click", 0), ("click", 1)]
+    evs += [("wheel", 4), ("wheel", 5), ("click", 0)] + ([] if tier == "quick" else [("click", 1)])
     evs += [("pos", k) for k in pos]
     evs += [("resize", r) for r in ("h1", "h+", "h-", "c-", "c+")]
     evs += [("content", "short"), ("content", "long")]
@@ -839,7 +839,7 @@ def run(tier="quick", seed=0):
     bound = (
         f"{len(scfgs)} Scrollable configs (contents: Text/Pile(mixed, empty)/fixed block/key-grabbing flow widget, <= 9 rows; "
         f"views {QUICK_SIZES if quick else '{3,4,6}x{1,2,3,6}'}; no bar / bar width 1-2 left/right; force_forward_keypress both{'' if quick else '; focus=False renders'}) x all histories "
-        f"of length <= 2 over {nalpha} events (6 keys, wheel up/down, 2 clicks, set_scrollpos {'{-9,-2,-1,0,1,3,9}' if quick else '-9..9'}, 5 resizes, 2 content changes), "
+        f"of length <= 2 over {nalpha} events (6 keys, wheel up/down, {1 if quick else 2} clicks, set_scrollpos {'{-9,-2,-1,0,3,9}' if quick else '-9..9'}, 5 resizes, 2 content changes), "
         f"render after every event (+ render-at-end and no-initial-render variants on every {8 if quick else 4}th config); "
         f"all length-3 histories over {len(ALPHA3['quick' if quick else 'thorough'])} core events on {len(c3)} configs; "
         f"{'' if quick else '100 seeded random histories of length 4-6 per config; '}"
